@@ -97,6 +97,31 @@ def _shard_pairs(job):
     return st
 
 
+def _buffers(_):
+    """the SAME two array objects are refilled in place with successive vector pairs (a caller streaming batches through preallocated buffers):
+    the score must depend on the current contents only"""
+    st = Stats()
+    f = est.estimator()
+    for n in (3, 4, 5):
+        A = est.arrs(n)
+        by = np.zeros(n, dtype=np.int32)
+        bx = np.zeros(n, dtype=np.int32)
+        for i, (ty, _) in enumerate(A):
+            for j in range(0, len(A), 3):
+                tx = A[(i + j) % len(A)][0]
+                by[:] = ty
+                bx[:] = tx
+                ok, s = safe(f, by, bx, est._F1, False)
+                st.count('evaluations')
+                st.count('buffer_reuse_calls')
+                if not ok:
+                    st.violation({'Y': ty, 'X': tx, 'reused_buffers': True}, f'exception {s}', {'kind': 'exception'})
+                elif not est.near(float(s), refs.plugin_mi(ty, tx)):
+                    st.violation({'Y': ty, 'X': tx, 'reused_buffers': True}, f'buffers refilled in place: score {float(s)!r} for contents Y={ty} X={tx}, plug-in MI {refs.plugin_mi(ty, tx)!r}', {'kind': 'value_reused_buffers'})
+                    return st
+    return st
+
+
 def _replication(job):
     m, lo, hi = job
     st = Stats()
@@ -189,6 +214,7 @@ def run(ctx):
     rep_jobs = [(m, lo, hi) for m in (10, 1000) for lo, hi in shards(52, 8)]
     for st in pmap(_replication, rep_jobs):
         ctx.stats.merge(st)
+    ctx.stats.merge(_buffers(None))
     sizes = [10 ** 3, 10 ** 5, 10 ** 6] if ctx.thorough else [10 ** 3, 10 ** 5]
     for st in pmap(_extreme, sizes):
         ctx.stats.merge(st)
@@ -201,6 +227,8 @@ def run(ctx):
 def eval_case(case):
     f = est.estimator()
     st = Stats()
+    if case.get('reused_buffers'):
+        return [v['what'] for v in _buffers(None).violations]
     if 'extreme' in case:
         for name, Y, X, exp in extreme_cases(case['n']):
             if name == case['extreme']:
